@@ -20,13 +20,18 @@ type modEntry struct {
 	typ       types.Type // cell type (for maps: the map type)
 	isMap     bool
 	freshOnly bool
+	allFields bool         // whole cell may change
+	fields    map[int]bool // otherwise: only these top-level struct fields
 }
 
 func newModset() *Modset {
 	return &Modset{cells: map[string]*modEntry{}, ghost: map[string]bool{}, keys: map[string]bool{}}
 }
 
-func (m *Modset) add(t types.Type, isMap, fresh bool) {
+func (m *Modset) add(t types.Type, isMap, fresh bool) { m.addField(t, isMap, fresh, -1) }
+
+// addField: field >= 0 restricts the write to that top-level field of a struct cell
+func (m *Modset) addField(t types.Type, isMap, fresh bool, field int) {
 	t = types.Unalias(t)
 	var key string
 	if isMap {
@@ -34,11 +39,21 @@ func (m *Modset) add(t types.Type, isMap, fresh bool) {
 	} else {
 		key = typeKey(t)
 	}
-	if e, ok := m.cells[key]; ok {
-		e.freshOnly = e.freshOnly && fresh
+	e, ok := m.cells[key]
+	if !ok {
+		e = &modEntry{typ: t, isMap: isMap, freshOnly: true, fields: map[int]bool{}}
+		m.cells[key] = e
+	}
+	if fresh {
+		// writes to cells allocated in the region never affect older cells: they do not widen the field set
 		return
 	}
-	m.cells[key] = &modEntry{typ: t, isMap: isMap, freshOnly: fresh}
+	e.freshOnly = false
+	if field < 0 {
+		e.allFields = true
+	} else {
+		e.fields[field] = true
+	}
 }
 
 func (m *Modset) union(o *Modset, calleeFreshStays bool) {
@@ -46,14 +61,41 @@ func (m *Modset) union(o *Modset, calleeFreshStays bool) {
 		m.top = true
 	}
 	for k, e := range o.cells {
-		if me, ok := m.cells[k]; ok {
-			me.freshOnly = me.freshOnly && e.freshOnly
-		} else {
-			m.cells[k] = &modEntry{typ: e.typ, isMap: e.isMap, freshOnly: e.freshOnly}
+		me, ok := m.cells[k]
+		if !ok {
+			me = &modEntry{typ: e.typ, isMap: e.isMap, freshOnly: true, fields: map[int]bool{}}
+			m.cells[k] = me
+		}
+		me.freshOnly = me.freshOnly && e.freshOnly
+		me.allFields = me.allFields || e.allFields
+		for f := range e.fields {
+			me.fields[f] = true
 		}
 	}
 	for k := range o.ghost {
 		m.ghost[k] = true
+	}
+}
+
+// firstField: for a store through &root.f0.f1..., the top-level field f0 of the root cell (-1: whole cell)
+func firstField(addr ssa.Value) int {
+	f := -1
+	for {
+		switch a := addr.(type) {
+		case *ssa.FieldAddr:
+			f = a.Field
+			addr = a.X
+			continue
+		case *ssa.IndexAddr:
+			if _, ok := a.X.Type().Underlying().(*types.Pointer); ok {
+				if _, ok := a.X.(*ssa.FieldAddr); ok {
+					addr = a.X
+					continue
+				}
+			}
+			return -1
+		}
+		return f
 	}
 }
 
@@ -103,7 +145,11 @@ func (eng *Engine) instrMods(fn *ssa.Function, ins ssa.Instruction, region map[*
 		if arr, ok := cell.Underlying().(*types.Array); ok {
 			cell = arr.Elem()
 		}
-		m.add(cell, false, isFreshRoot(root, region))
+		ff := firstField(x.Addr)
+		if _, isStruct := cell.Underlying().(*types.Struct); !isStruct || isTimeTime(cell) {
+			ff = -1
+		}
+		m.addField(cell, false, isFreshRoot(root, region), ff)
 	case *ssa.Alloc:
 		elem := x.Type().Underlying().(*types.Pointer).Elem()
 		if arr, ok := elem.Underlying().(*types.Array); ok {
